@@ -153,6 +153,38 @@ def run_joint(case):
     return st, fails, len(g)
 
 
+def cases_many(tier):
+    """Partition COUNTS around the sizes at which dask changes how it builds bags (from_sequence groups elements once
+    there are more than 100) and around split_every boundaries; one- and two-sub-stream structures."""
+    counts = (15, 16, 17, 64, 99, 100, 101, 128, 257) if tier == "quick" else (15, 16, 17, 63, 64, 65, 99, 100, 101, 102, 128, 200, 256, 257, 300)
+    for n in counts:
+        for wpc, spill in ((1, 0), (2, M_SZ + 1), (1, 1 << 30)):
+            for hl, fl in ((0, 0), (3, 2)):
+                parts = tuple(((5,), (1,), (14,), (3, 9))[i % 4] for i in range(n))
+                yield (parts, wpc, spill, hl, fl, 1, True), (n,)
+                if n >= 99:
+                    yield (parts, wpc, spill, hl, fl, 1, True), (n - 3, 3)
+
+
+def run_many(case):
+    cfg, subs = case
+    g, key, cx = build_graph(cfg, subs)
+    fails = {}
+
+    def check(x: taskgraph.Exec):
+        if x.error is not None:
+            if not core.in_repo_tb(x.error):
+                raise x.error
+            fails.setdefault(f"dask:many:exception:{type(x.error).__name__}@{core.raise_site(x.error)}", f"{type(x.error).__name__}: {x.error}")
+            return
+        w = x.ctx["w"]
+        for k, msg in c06.judge_writes(cfg, w.log, w.final):
+            fails.setdefault("dask:many:" + k, msg)
+
+    st = taskgraph.explore(g, cx, check, 0)
+    return st, fails, len(g)
+
+
 def run_case(case, bound):
     cfg, subs = case
     stats, dp_fails = c06.explore_cfg(cfg)
@@ -241,7 +273,27 @@ def run(ctx):
                        f"substreams={case[1]}, destinations={case[2]}, same_data={case[3]}): {m}")
         return r
 
+    many = list(cases_many(ctx.tier))
+
+    def runm(case):
+        n = len(case[0][0])
+        r = R(outcome=f"many:n{n}:subs{len(case[1])}")
+        try:
+            st, fails, ntasks = run_many(case)
+        except Exception as e:  # graph construction itself runs library code
+            if not core.in_repo_tb(e):
+                raise
+            return r.fail(f"dask:many:graph-construction:{type(e).__name__}@{core.raise_site(e)}",
+                          f"{n} partitions, substreams={case[1]}, wpc={case[0][1]}, spill={case[0][2]}: {type(e).__name__}: {e}")
+        r.counts = dict(dask_executions=st.executions, dask_tasks_run=st.tasks_run, transitions=st.tasks_run, dask_graphs=1)
+        for k_, m in fails.items():
+            r.fail(k_, f"{n} partitions, substreams={case[1]}, wpc={case[0][1]}, spill={case[0][2]}, hdr={case[0][3]}, ftr={case[0][4]}: {m}")
+        return r
+
     e1.run_slices(ctx, [
+        e1.Slice("dask-many-partitions", lambda: iter(many), runm,
+                 "15..257 (thorough ..300) partitions through the real mpu_write graph: counts around dask's bag-grouping threshold (100) "
+                 "and the fold fan-in"),
         e1.Slice("dask-joint-destinations", lambda: iter(joint), runj,
                  "2-3 assemblies to different destinations built into ONE graph and executed together"),
         e1.Slice(f"dask-orders-bound{bound}", gen, runc, sl["note"], shards=len(allcases)),
